@@ -158,6 +158,28 @@ func init() {
 			it.fail("rlp.DecodeBytes into %s", it.describe(a[1]))
 		}
 		elem := iv.T.Underlying().(*types.Pointer).Elem()
+		if _, isStruct := elem.Underlying().(*types.Struct); isStruct && !isStrLike(elem) {
+			// a struct is decoded from the list of its fields: the bytes either are such a list or the call fails; a decoded
+			// value re-encodes to the very same bytes (canonical RLP), which ties its fields to the injective encoding
+			t := it.toA(src)
+			it.strLenTerm(t)
+			tk := typeKey(elem)
+			if !it.p.branch(App("rlp_decodes!"+tk, SBool, t)) {
+				return it.newErr(IfaceV{}, "rlp: decode error")
+			}
+			v := it.freshValue(elem, "", it.decodeMaker(t, "rlp!"+tk), freshOpts{maxLen: it.ex.cfg.DecodeMaxLen})
+			var leaves []*Term
+			if !it.flatten(v, &leaves) {
+				it.fail("rlp.DecodeBytes: cannot flatten %s", elem)
+			}
+			name := fmt.Sprintf("rlpenc!%d", len(leaves))
+			enc := App(name, SStr, leaves...)
+			it.p.noteInjective(name, enc)
+			it.strLenTerm(enc)
+			it.p.assertAxiom(Eq(enc, t))
+			*p = v
+			return IfaceV{}
+		}
 		if !isStrLike(elem) {
 			it.fail("rlp.DecodeBytes into %s is not modelled", elem)
 		}
